@@ -42,7 +42,7 @@ func mkQK(reuse, h, key, v, idx int64, mx, mn float64) *object.QuadkeyAndVertica
 		return object.NewQuadkeyAndVerticalID(h, key, v, idx, mx, mn)
 	}
 	oldH := reuse%29 + 1
-	q := object.NewQuadkeyAndVerticalID(oldH, (reuse/29)%(int64(1)<<uint(2*min64(oldH, 20))), (reuse/7)%36, -(reuse % 11), float64(reuse%5), -float64(reuse%3))
+	q := object.NewQuadkeyAndVerticalID(oldH, (reuse/29)%(int64(1)<<uint(2*min64(oldH, 20))), (reuse/7)%36, -(reuse % 2), float64(reuse%5), -float64(reuse%3))
 	for _, s := range permOf(reuse/31, 6) {
 		switch s {
 		case 0:
@@ -70,9 +70,10 @@ func mkTile(reuse, h, x, y, v, z int64) (*object.TileXYZ, error) {
 	if reuse == 0 {
 		return object.NewTileXYZ(h, x, y, v, z)
 	}
-	o, err := object.NewTileXYZ(reuse%30+1, reuse%977, (reuse/3)%977, (reuse/5)%36, -(reuse % 13))
+	// the values the object held before are valid ones of another tile; if they are refused, build the tile directly
+	o, err := object.NewTileXYZ(reuse%30+1, reuse%2, (reuse/3)%2, (reuse/5)%36, reuse%2)
 	if err != nil {
-		return nil, err
+		return object.NewTileXYZ(h, x, y, v, z)
 	}
 	for _, s := range permOf(reuse/31, 5) {
 		switch s {
@@ -99,9 +100,9 @@ func mkExtObj(reuse int64, id string, h, x, y, v, f int64) (*object.ExtendedSpat
 	if reuse == 0 {
 		return object.NewExtendedSpatialID(id)
 	}
-	o, err := object.NewExtendedSpatialID(fmt.Sprintf("%d/%d/%d/%d/%d", reuse%30+2, reuse%3, (reuse/3)%4, (reuse/5)%36, -(reuse % 17)))
+	o, err := object.NewExtendedSpatialID(fmt.Sprintf("%d/%d/%d/%d/%d", reuse%30+2, reuse%3, (reuse/3)%4, (reuse/5)%36, -(reuse % 2)))
 	if err != nil {
-		return nil, err
+		return object.NewExtendedSpatialID(id)
 	}
 	if reuse%4 == 1 {
 		return o, o.ResetExtendedSpatialID(id)
